@@ -28,6 +28,16 @@ def build():
     for t in ["ExternalAccount", "Account", "AccountContact", "Certificate", "Identifier", "SubjectAttributes"]:
         u.take(C, t, "config")
     u.raw("config", SPEC)
+    u.raw("config", """
+// the built-in defaults are the documented ones (acmed.toml(5))
+pub proof fn documented_defaults()
+    ensures
+        crate::DEFAULT_KP_REUSE == false, //@C02.by_default_a_new_key_is_generated_for_every_certificate,C03.by_default_a_new_key_is_generated_for_every_certificate
+        crate::DEFAULT_CSR_DIGEST == HashFunction::Sha256, //@C01.default_csr_digest_is_sha256
+        crate::DEFAULT_CERT_KEY_TYPE == KeyType::Rsa2048, //@C02.default_certificate_key_type_is_rsa2048,C14.default_certificate_key_type_is_rsa2048
+        crate::DEFAULT_EXTERNAL_ACCOUNT_JWA == JwsSignatureAlgorithm::Hs256, //@C04.default_external_binding_algorithm_is_hs256,C11.default_external_binding_algorithm_is_hs256
+{}
+""")
     u.raw("config", TRUSTED, trusted=True)
     u.macro(C, "push_subject_attr")
     V = lambda spec, fn, props, fs: u.verify(C, spec, "config", props=props, fns={fn: fs})
